@@ -504,3 +504,115 @@ def normalise(tree, public=(), signatures=None, aliases=None):
     if signatures:
         tree = keywords_to_positional(tree, signatures, aliases or {})
     return ast.fix_missing_locations(tree)
+
+
+# ---------------------------------------------------------------------------------------------------------------------
+# name resolution: the translators read `len`, `bytes`, `_tools.xor`, `_sys.byteorder`, `pad_iso9797_1` … by their
+# spelling.  That is only sound when every such name means what it says, which the rules below enforce.
+
+class Binding(Exception):
+    pass
+
+
+ALLOWED_IMPORTS = {
+    "_typing": "typing", "_t": "typing", "_Enum": "enum.Enum", "_binascii": "binascii", "_hashlib": "hashlib", "_sys": "sys",
+    "_default_backend": "cryptography.hazmat.backends.default_backend",
+    "_Cipher": "cryptography.hazmat.primitives.ciphers.Cipher",
+    "_algorithms": "cryptography.hazmat.primitives.ciphers.algorithms",
+    "_modes": "cryptography.hazmat.primitives.ciphers.modes",
+    "_mac_iso9797_3": "pyemv.mac.mac_iso9797_3", "_encrypt_tdes_cbc": "pyemv.tools.encrypt_tdes_cbc", "_xor": "pyemv.tools.xor",
+    "_ac": "pyemv.ac", "_kd": "pyemv.kd", "_sm": "pyemv.sm", "_mac": "pyemv.mac", "_tools": "pyemv.tools",
+}
+
+
+PACKAGE_MODULES = ["ac", "cvn", "cvv", "kd", "mac", "sm", "tlv", "tools"]
+
+
+def check_package(repo):
+    """the package is the eight modules the translators read and an `__init__` that only imports them: no further
+    module (a place for patches applied at import time), no statement in `__init__` besides the docstring, constant
+    dunder assignments and `from pyemv import <modules>`"""
+    import os
+    d = os.path.join(repo, "pyemv")
+    extra = sorted(f for f in os.listdir(d) if f.endswith((".py", ".pth", ".so", ".pyc")) and f not in [m + ".py" for m in PACKAGE_MODULES] + ["__init__.py"])
+    extra += sorted(f for f in os.listdir(d) if os.path.isdir(os.path.join(d, f)) and f != "__pycache__")
+    if extra:
+        raise Binding(f"the package holds {extra}, which no translator reads")
+    tree = ast.parse(open(os.path.join(d, "__init__.py")).read())
+    for n in tree.body:
+        if isinstance(n, ast.Expr) and isinstance(n.value, ast.Constant) and isinstance(n.value.value, str):
+            continue
+        if isinstance(n, ast.Assign) and len(n.targets) == 1 and isinstance(n.targets[0], ast.Name) \
+                and n.targets[0].id.startswith("__") and n.targets[0].id.endswith("__") and _is_const_expr(n.value):
+            continue
+        if isinstance(n, ast.Assign) and len(n.targets) == 1 and isinstance(n.targets[0], ast.Name) and n.targets[0].id == "__all__" \
+                and isinstance(n.value, (ast.List, ast.Tuple)) and all(isinstance(x, ast.Constant) for x in n.value.elts):
+            continue
+        if isinstance(n, ast.ImportFrom) and n.module == "pyemv" and not n.level \
+                and all(a.name in PACKAGE_MODULES and a.asname in (None, a.name) for a in n.names):
+            continue
+        raise Binding(f"pyemv/__init__.py: statement `{ast.unparse(n)[:60]}`")
+
+
+def check_bindings(tree):
+    """raises Binding when a name the translators interpret by its spelling could mean something else: an import
+    that binds a known alias to another target, an import anywhere but at module level, or any definition,
+    assignment, parameter, loop / with / except target that re-binds a builtin, an imported alias or a module-level
+    function or class"""
+    import builtins
+    imported = {}
+    for n in tree.body:
+        if isinstance(n, ast.Import):
+            for a in n.names:
+                imported[(a.asname or a.name).split(".")[0]] = a.name
+        elif isinstance(n, ast.ImportFrom):
+            if n.level:
+                raise Binding(f"relative import `{ast.unparse(n)}`")
+            for a in n.names:
+                imported[a.asname or a.name] = f"{n.module}.{a.name}"
+    for name, target in imported.items():
+        if (target == "pyemv" or target.startswith("pyemv.")) and target not in ALLOWED_IMPORTS.values() \
+                and target not in {"pyemv." + m for m in PACKAGE_MODULES}:
+            raise Binding(f"import of `{target}`, which is not one of the package's modules / functions the translators know")
+        if name in ALLOWED_IMPORTS and ALLOWED_IMPORTS[name] != target:
+            raise Binding(f"import binds `{name}` to {target}, not to {ALLOWED_IMPORTS[name]}")
+        if hasattr(builtins, name):
+            raise Binding(f"import re-binds the builtin `{name}`")
+    def stub(n):
+        return (isinstance(n, ast.FunctionDef) and [ast.unparse(d) for d in n.decorator_list] in (["_t.overload"], ["_typing.overload"])
+                and len(n.body) == 1 and isinstance(n.body[0], ast.Expr) and isinstance(n.body[0].value, ast.Constant)
+                and n.body[0].value.value is Ellipsis)
+    top_defs = [n.name for n in tree.body if isinstance(n, (ast.FunctionDef, ast.ClassDef, ast.AsyncFunctionDef)) and not stub(n)]
+    last_def = {}
+    for i, n in enumerate(tree.body):
+        if isinstance(n, (ast.FunctionDef, ast.ClassDef, ast.AsyncFunctionDef)):
+            if stub(n) and n.name in last_def and not stub(tree.body[last_def[n.name]]):
+                raise Binding(f"an overload stub of `{n.name}` follows its definition")
+            last_def[n.name] = i
+    for name in top_defs:
+        if top_defs.count(name) > 1:
+            raise Binding(f"`{name}` is defined twice at module level")
+        if name in imported or hasattr(builtins, name):
+            raise Binding(f"module-level definition re-binds `{name}`")
+    protected = set(imported) | set(top_defs) | {b for b in dir(builtins) if not b.startswith("__")}
+    top_level = set(map(id, tree.body))
+    for n in ast.walk(tree):
+        if isinstance(n, (ast.Import, ast.ImportFrom)) and id(n) not in top_level:
+            raise Binding(f"import inside a function or class: `{ast.unparse(n)}`")
+        bound = []
+        if isinstance(n, ast.Name) and isinstance(n.ctx, (ast.Store, ast.Del)):
+            bound.append(n.id)
+        elif isinstance(n, ast.arg):
+            bound.append(n.arg)
+        elif isinstance(n, (ast.FunctionDef, ast.ClassDef, ast.AsyncFunctionDef)) and id(n) not in top_level:
+            bound.append(n.name)
+        elif isinstance(n, (ast.Global, ast.Nonlocal)):
+            bound += n.names
+        elif isinstance(n, ast.ExceptHandler) and n.name:
+            bound.append(n.name)
+        elif isinstance(n, ast.Attribute) and isinstance(n.ctx, (ast.Store, ast.Del)) and isinstance(n.value, ast.Name) \
+                and n.value.id in protected:
+            raise Binding(f"assignment to an attribute of `{n.value.id}`: `{ast.unparse(n)}`")
+        for b in bound:
+            if b in protected:
+                raise Binding(f"`{b}` is re-bound (line {getattr(n, 'lineno', '?')}); the name is a builtin, an imported alias or a module-level definition")
